@@ -353,7 +353,7 @@ def run(ctx):
         conf = rng.choice(W.PANEL) if rng.random() < 0.6 else C.sample(rng)
         check_case(ctx, {"kind": "single", "conf": conf, "src": src})
     # (2)
-    for k in range(ctx.scale(40000, 1000000)):
+    for k in range(ctx.scale(22000, 1000000)):
         t = gen_t(rng).replace("\t", " ")
         if not t or "\n" in t:
             continue
